@@ -1,0 +1,16 @@
+//go:build verif
+
+package iter
+
+// Machine-checked contracts for the govc verifier (/verif). This file is comment-only and is
+// compiled only with the "verif" build tag.
+
+//@ props C15
+
+// Behavioural subtyping: an IterLink is a link-kind node, never a list, so it answers Kind() with
+// a non-list kind and has no list iterator (the datamodel.Node interface contract for both
+// methods is checked here under that stated domain).
+//@ func (*iter.IterLink).Kind
+//@ domain not-a-list: !isList(il)
+//@ func (*iter.IterLink).ListIterator
+//@ domain not-a-list: !isList(il)
